@@ -159,19 +159,29 @@ def load(rel: str) -> Module:
 
 
 def walk_py(rel_dirs: Sequence[str], exclude: Sequence[str] = ()) -> Iterator[str]:
+    """Repo-relative paths of all .py files under the given directories (the self-test overlay may add files)."""
+    from .common import OVERLAY
+    roots = [REPO] + ([os.path.join(OVERLAY, 'tree')] if OVERLAY else [])
+    seen: Set[str] = set()
+    out: List[str] = []
     for d in rel_dirs:
-        base = os.path.join(REPO, d)
-        if os.path.isfile(base):
-            yield d
-            continue
-        for root, dirs, files in os.walk(base):
-            dirs[:] = sorted(x for x in dirs if x not in ('__pycache__', 'node_modules', '.git'))
-            for f in sorted(files):
-                if f.endswith('.py'):
-                    rel = os.path.relpath(os.path.join(root, f), REPO)
-                    if any(rel.startswith(e) for e in exclude):
-                        continue
-                    yield rel
+        for root_base in roots:
+            base = os.path.join(root_base, d)
+            if os.path.isfile(base):
+                if d not in seen:
+                    seen.add(d)
+                    out.append(d)
+                continue
+            for root, dirs, files in os.walk(base):
+                dirs[:] = sorted(x for x in dirs if x not in ('__pycache__', 'node_modules', '.git'))
+                for f in sorted(files):
+                    if f.endswith('.py'):
+                        rel = os.path.relpath(os.path.join(root, f), root_base)
+                        if any(rel.startswith(e) for e in exclude) or rel in seen:
+                            continue
+                        seen.add(rel)
+                        out.append(rel)
+    return iter(sorted(out))
 
 
 # --------------------------------------------------------------------------------------
